@@ -66,8 +66,8 @@ def jobs(tier):
 
 def SOURCES():
     fs = {}
-    for cls in (lp.Convex, lp.PerspConvex, lp.PiecewiseConvex):
-        for n in ("__neg__", "__add__", "__radd__", "__sub__", "__rsub__", "__mul__", "__rmul__", "__le__", "__ge__", "__eq__"):
+    for cls in (lp.Convex, lp.PerspConvex, lp.PiecewiseConvex, lp.DecConvex, lp.DecPerspConvex, lp.ExpPiecewiseConvex, lp.DecAffine):
+        for n in ("__init__", "__neg__", "__add__", "__radd__", "__sub__", "__rsub__", "__mul__", "__rmul__", "__le__", "__ge__", "__eq__", "__abs__", "expcone"):
             f = cls.__dict__.get(n)
             if f is not None:
                 fs[f"rsome.lp:{cls.__name__}.{n}"] = source_info(f)
@@ -341,6 +341,32 @@ def piecewise_ops():
                      mean_pw(res, ns["xbar"]), p_le(den(ns["pw"], ns["xbar"]), views.flat(views.val(ns["o"], ns["xbar"]))[0])))],
                 f"{tag},other={kind}")
 
+        if FRONT == "dro":
+            # expectations of piecewise terms: E(maxof(...)) <= t is a (worst-case) convex constraint, E(maxof) >= t is not
+            for kind in ("real", "affine", "vars"):
+                def setup_e(c, kind=kind, minof=minof):
+                    ns = _mk_pw(c, 2, minof)
+                    ns["o"] = (c.fresh_real("r") if kind == "real" else
+                               _aff(c, ns["m"], ns["model"], (), [ns["y"].first], "oth") if kind == "affine" else ns["y"])
+                    ns["epw"] = rsome.E(ns["pw"])
+                    return ns
+                is_epw = lambda ns, res: isinstance(res, lp.ExpPWConstr) and len(res.pieces) == 2      # noqa: E731
+                run("E(pw).__le__", setup_e, lambda ns: ns["epw"] <= ns["o"],
+                    [raises_iff("rejects-concave", lambda ns: p_eq(ns["pw"].sign, -1), (ValueError,)), post("an-expectation-constraint-with-all-pieces", is_epw)],
+                    f"{tag},other={kind}")
+                run("E(pw).__ge__", setup_e, lambda ns: ns["epw"] >= ns["o"],
+                    [raises_iff("rejects-convex", lambda ns: p_eq(ns["pw"].sign, 1), (ValueError,)), post("an-expectation-constraint-with-all-pieces", is_epw)],
+                    f"{tag},other={kind}")
+                run("E(pw).__ge__ (reflected: other <= E(pw))", setup_e, lambda ns: ns["o"] <= ns["epw"],
+                    [raises_iff("rejects-convex", lambda ns: p_eq(ns["pw"].sign, 1), (ValueError,)), post("an-expectation-constraint-with-all-pieces", is_epw)],
+                    f"{tag},other={kind}")
+                run("E(pw).__le__ (reflected: other >= E(pw))", setup_e, lambda ns: ns["o"] >= ns["epw"],
+                    [raises_iff("rejects-concave", lambda ns: p_eq(ns["pw"].sign, -1), (ValueError,)), post("an-expectation-constraint-with-all-pieces", is_epw)],
+                    f"{tag},other={kind}")
+                run("E(-pw).__le__", setup_e, lambda ns: -ns["epw"] <= ns["o"],
+                    [raises_iff("rejects-concave", lambda ns: p_eq(ns["pw"].sign, 1), (ValueError,)), post("an-expectation-constraint-with-all-pieces", is_epw)],
+                    f"{tag},other={kind}")
+
         def setup_mul(c, minof=minof):
             ns = _mk_pw(c, 2, minof)
             ns["r"] = c.fresh_real("r")
@@ -438,6 +464,11 @@ def adaptive_atoms():
         "norm(vec(const, adaptive))": lambda y, x: rsome.norm(rsome.vec(0.5, y[0]), 1) <= 1,
         "square(rstack(static, adaptive))": lambda y, x: rsome.square(rsome.rstack(x, y)) <= 1,
         "abs(concat(adaptive, static))": lambda y, x: abs(rsome.concat((y, x))) <= 1,
+        # the adaptive decision as the AFFINE part of a convex constraint: a robust convex constraint, not supported
+        "abs(static) + adaptive": lambda y, x: abs(x) + y <= 1, "abs(static) <= adaptive": lambda y, x: abs(x) <= y,
+        "adaptive >= norm(static)": lambda y, x: y[0] >= rsome.norm(x, 2), "exp(static) - adaptive": lambda y, x: rsome.exp(x) - y <= 0,
+        "pexp(static, static) + adaptive": lambda y, x: rsome.pexp(x, x + 3) + y <= 9, "adaptive - log(static)": lambda y, x: y - rsome.log(x + 3) <= 1,
+        "sumsqr(static) + adaptive[0]": lambda y, x: rsome.sumsqr(x) + y[0] <= 4, "2*abs(static) - 3*adaptive": lambda y, x: 2 * abs(x) - 3 * y <= 1,
     }
     class Rejected(ValueError):
         pass
